@@ -6,8 +6,6 @@ KNOWN-FINDING).  Avoided draws are counted per id in evidence ('avoided')."""
 OPEN = {
     'dup-pvd-udf': 'duplicate_pvd() on a UDF image shifts the bridge layout: the image cannot be reopened',
     'dup-pvd-eltorito': 'duplicate_pvd() together with El Torito puts the boot record at sector 18: the image cannot be reopened',
-    'rr-moved-stale': 'after the relocation directory was removed a new relocation re-uses the detached record',
-    'reloc-after-reopen': 'after a reopen _rr_moved_record points at the last relocated directory instead of RR_MOVED: a new relocation lands in the wrong directory (rm_directory then raises "Could not find parent in its own parent!")',
     'hybrid-efi-count': 'isohybrid with a number of 0xef El Torito entries other than the efi/mac flags expect: write raises PyCdlibInternalError',
 }
 
